@@ -1435,14 +1435,14 @@ fn r_pack_storage(t: &RTree) -> Vec<Verdict> {
         for &m in &n.children {
             if let PtRef::CPart(pt::ContractPart::VariableDefinition(d)) = t.nodes[m].pt {
                 seq.push(type_bits(&d.ty));
-                if var_constant(d) || var_immutable(d) || !elementary(&d.ty) {
+                if var_constant(d) || var_immutable(d) {
                     decided = false;
                 }
             }
         }
         if !decided {
             // outside the decided alphabet: gray either way
-            out.push(v(t, ci, false, "contract with constant / immutable / non-elementary members"));
+            out.push(v(t, ci, false, "contract with constant / immutable members"));
             continue;
         }
         if let Some(must) = pack_verdict(&seq) {
@@ -1460,10 +1460,6 @@ fn r_pack_struct(t: &RTree) -> Vec<Verdict> {
             _ => continue,
         };
         let seq: Vec<u32> = sd.fields.iter().map(|f| type_bits(&f.ty)).collect();
-        if sd.fields.iter().any(|f| !elementary(&f.ty)) {
-            out.push(v(t, si, false, "struct with non-elementary members"));
-            continue;
-        }
         if let Some(must) = pack_verdict(&seq) {
             out.push(v(t, si, must, "packable struct"));
         }
